@@ -42,6 +42,41 @@ fn exact_out(st: &Stable, xs: &[BigUint], d: &BigUint, i: usize, j: usize, offer
     Some(if xj > y { xj - y } else { BigUint::zero() })
 }
 
+/// The deposit path's integer Newton iteration for D, step for step as the contract runs it
+/// (`calculate_d_core`): true when it settles within the contract's 255 rounds.
+fn contract_d_iteration_settles(xs: &[BigUint], amp: u64) -> bool {
+    let n = BigUint::from(xs.len() as u64);
+    let ann = BigUint::from(amp) * &n;
+    let s: BigUint = xs.iter().sum();
+    if s.is_zero() {
+        return true;
+    }
+    let one = BigUint::from(1u32);
+    let mut d = s.clone();
+    for _ in 0..255 {
+        let mut d_prod = d.clone();
+        for x in xs.iter() {
+            if x.is_zero() {
+                continue;
+            }
+            d_prod = &d_prod * &d / (x * &n);
+        }
+        let prev = d.clone();
+        let leverage = &s * &ann;
+        let numerator = &d * (&d_prod * &n + &leverage);
+        let denominator = &d * (&ann - &one) + &d_prod * (&n + &one);
+        if denominator.is_zero() {
+            return false;
+        }
+        d = numerator / denominator;
+        let diff = if d > prev { &d - &prev } else { &prev - &d };
+        if diff <= one {
+            return true;
+        }
+    }
+    false
+}
+
 impl C19 {
     fn check_quote(&self, c: &mut SimCore, pool: &PoolInfo, i: usize, j: usize, offer: u128) -> MResult {
         let amp = match pool.pool_type {
@@ -282,10 +317,19 @@ impl Monitor for C19 {
                                     let diff = if sb > lo { &sb - &lo } else { &lo - &sb };
                                     c.stats.bump("probe.c19.first_mint_checked_outside_range");
                                     if &diff * BigUint::from(5_000u32) > lo.clone() + BigUint::from(320_000u64) {
-                                        return Err(viol(
+                                        let settles = contract_d_iteration_settles(&xs, amp);
+                                        let mut v = viol(
                                             "C19.mint_invariant_grossly_wrong",
                                             format!("first deposit {:?} (decimals {:?}, amp {amp}) minted total {sb} LP, exact invariant {lo}: off by more than two parts in ten thousand", rs, p1.pool_info.asset_decimals),
-                                        ));
+                                        );
+                                        // envelope S14: the contract's own iteration runs out of its 255 rounds
+                                        // (first deposits skewed by some 30 orders of magnitude) and the last
+                                        // iterate is used as if it were the invariant
+                                        if !settles {
+                                            v.finding = Some("S14-d-iteration-runs-out".into());
+                                            v.truncate = false;
+                                        }
+                                        return Err(v);
                                     }
                                 }
                             }
